@@ -46,6 +46,7 @@ type c06Msg struct {
 	psCount  uint16 // part set id
 	psHash   byte
 	ntsCount uint16 // votes for a block: low 16 bits of the app data
+	unsig    byte   // precommits for a block: selects the content of the parts the signature does NOT cover
 	ts       int64  // votes
 	pol      int32  // proposals
 }
@@ -57,7 +58,7 @@ func (m c06Msg) String() string {
 	if m.nilVote {
 		return fmt.Sprintf("vote{signer=%d h=%d r=%d type=%d nid=%d nil ts=%d}", m.signer, m.height, m.round, m.vtype, m.nid, m.ts)
 	}
-	return fmt.Sprintf("vote{signer=%d h=%d r=%d type=%d nid=%d block=%02x ps=%d/%02x nts=%d ts=%d}", m.signer, m.height, m.round, m.vtype, m.nid, m.block, m.psCount, m.psHash, m.ntsCount, m.ts)
+	return fmt.Sprintf("vote{signer=%d h=%d r=%d type=%d nid=%d block=%02x ps=%d/%02x nts=%d ts=%d unsigned=%d}", m.signer, m.height, m.round, m.vtype, m.nid, m.block, m.psCount, m.psHash, m.ntsCount, m.ts, m.unsig)
 }
 
 // signed is the canonical rendering of exactly the fields covered by the signature.
@@ -107,12 +108,25 @@ func c06Build(m c06Msg) (typ string, bs []byte, err error) {
 		bs, err := codec.BC.MarshalToBytes(pm)
 		return module.DSTProposal, bs, err
 	}
-	vm := consensus.NewVoteMessage(w, m.vtype, m.height, m.round, nil, nil, m.ts, nil, nil, 0)
+	// A precommit for a block carries, outside the signed part, one network-type-section entry and one
+	// proof part per counted NTS vote (what VoteMessage.Verify demands); m.unsig selects their content, so
+	// two messages that differ only in m.unsig are two copies of ONE signed vote.
+	var entries []module.NTSHashEntryFormat
+	var parts [][]byte
+	if !m.nilVote && m.vtype == consensus.VoteTypePrecommit {
+		for i := 0; i < int(m.ntsCount); i++ {
+			entries = append(entries, module.NTSHashEntryFormat{NetworkTypeID: int64(i + 1), NetworkTypeSectionHash: c06Hash("n", m.unsig*8+byte(i))})
+			parts = append(parts, []byte{0x10 + m.unsig, byte(i)})
+		}
+	}
+	vm := consensus.NewVoteMessage(w, m.vtype, m.height, m.round, nil, nil, m.ts, entries, parts, 0)
 	if m.nilVote {
-		vm.SetRoundDecision(codec.MustMarshalToBytes(int(m.nid)), nil, nil)
+		vm.BlockID = codec.MustMarshalToBytes(int(m.nid))
+		vm.BlockPartSetIDAndNTSVoteCount = nil
 	} else {
 		psid := &consensus.PartSetID{Count: m.psCount, Hash: c06Hash("p", m.psHash)}
-		vm.SetRoundDecision(c06Hash("b", m.block), psid.WithAppData(uint64(m.nid)<<16|uint64(m.ntsCount)), nil)
+		vm.BlockID = c06Hash("b", m.block)
+		vm.BlockPartSetIDAndNTSVoteCount = psid.WithAppData(uint64(m.nid)<<16 | uint64(m.ntsCount))
 	}
 	if err := vm.Sign(w); err != nil {
 		return "", nil, err
@@ -133,7 +147,8 @@ func c06DrawMsg(rt *rapid.T, nids []uint32) c06Msg {
 		block:    byte(rapid.IntRange(0, 2).Draw(rt, "block")),
 		psCount:  uint16(rapid.IntRange(1, 3).Draw(rt, "psCount")),
 		psHash:   byte(rapid.IntRange(0, 2).Draw(rt, "psHash")),
-		ntsCount: uint16(rapid.IntRange(0, 1).Draw(rt, "nts")),
+		ntsCount: uint16(rapid.IntRange(0, 2).Draw(rt, "nts")),
+		unsig:    byte(rapid.IntRange(0, 2).Draw(rt, "unsig")),
 		ts:       int64(rapid.IntRange(1000, 1003).Draw(rt, "ts")),
 		pol:      int32(rapid.IntRange(-1, 1).Draw(rt, "pol")),
 	}
@@ -147,6 +162,10 @@ func c06Applicable(m c06Msg) []string {
 		return []string{"kind", "signer", "height", "round", "nid", "ps", "pol"}
 	case m.nilVote:
 		return []string{"kind", "signer", "height", "round", "vtype", "nid", "nil", "ts"}
+	}
+	if m.vtype == consensus.VoteTypePrecommit && m.ntsCount > 0 {
+		// "unsig" is listed twice: it is the only attribute whose change leaves the signed content alone
+		return []string{"kind", "signer", "height", "round", "vtype", "nid", "nil", "block", "ps", "nts", "ts", "unsig", "unsig"}
 	}
 	return []string{"kind", "signer", "height", "round", "vtype", "nid", "nil", "block", "ps", "nts", "ts"}
 }
@@ -190,7 +209,9 @@ func c06Mutate(rt *rapid.T, m c06Msg, a string, nids []uint32) c06Msg {
 			m.psHash = byte(other(int(m.psHash), 0, 2, "psHash2"))
 		}
 	case "nts":
-		m.ntsCount = 1 - m.ntsCount
+		m.ntsCount = uint16(other(int(m.ntsCount), 0, 2, "nts2"))
+	case "unsig":
+		m.unsig = byte(other(int(m.unsig), 0, 2, "unsig2"))
 	case "ts":
 		m.ts = int64(other(int(m.ts), 1000, 1003, "ts2"))
 	case "pol":
@@ -276,8 +297,6 @@ func TestC06(t *testing.T) {
 			if m1.nid != 0 && m2.nid != 0 && m1.nid != m2.nid {
 				labels = append(labels, "two-different-nonzero-nids")
 			}
-			rec.Case(desc, len(failed) == 1, labels...)
-
 			t1, bs1, err := c06Build(m1)
 			if err != nil {
 				rt.Fatalf("harness: build m1: %v", err)
@@ -286,6 +305,14 @@ func TestC06(t *testing.T) {
 			if err != nil {
 				rt.Fatalf("harness: build m2: %v", err)
 			}
+			if !m1.proposal && !m2.proposal && m1.signer == m2.signer && m1.signed() == m2.signed() {
+				if bytes.Equal(bs1, bs2) {
+					labels = append(labels, "byte-identical-copies")
+				} else {
+					labels = append(labels, "one-signed-vote-copies-differ-in-unsigned-parts")
+				}
+			}
+			rec.Case(desc, len(failed) == 1, labels...)
 			d1, err := consensus.DecodeDoubleSignData(t1, bs1)
 			if err != nil {
 				rt.Fatalf("C06 harness: well-formed signed message %v rejected by DecodeDoubleSignData: %v", m1, err)
